@@ -48,6 +48,12 @@ static inline void raw_put(void* base, size_t i, int cw, uint64_t v) {
   }
 }
 
+template <typename T>
+__attribute__((no_sanitize("address", "undefined"))) static inline void raw_store_t(void* p, const uint64_t* v, size_t n) {
+  T* q = (T*)p;
+  for (size_t i = 0; i < n; i++) q[i] = (T)v[i];
+}
+
 static bool format_matches(const Image& im, const Canvas& c);
 static uint64_t n_loaded_ppm = 0, n_loaded_pam = 0, n_raw_ctor = 0, n_load_fallback = 0;
 
@@ -61,7 +67,12 @@ static Image make_image(const Canvas& c) {
   if (!c.odd_max()) {
     Image im((size_t)c.w, (size_t)c.h, c.alpha, (uint8_t)c.cw);  // exact-size malloc inside: ASan red zones both sides
     void* p = im.get_data();
-    for (size_t i = 0; i < c.v.size(); i++) raw_put(p, i, c.cw, c.v[i]);
+    switch (c.cw) {
+      case 8: raw_store_t<uint8_t>(p, c.v.data(), c.v.size()); break;
+      case 16: raw_store_t<uint16_t>(p, c.v.data(), c.v.size()); break;
+      case 32: raw_store_t<uint32_t>(p, c.v.data(), c.v.size()); break;
+      default: raw_store_t<uint64_t>(p, c.v.data(), c.v.size()); break;
+    }
     return im;
   }
   size_t nbytes = c.v.size() * (size_t)(c.cw / 8);
@@ -105,19 +116,49 @@ static bool format_matches(const Image& im, const Canvas& c) {
       im.get_channel_width() == c.cw && im.get_data_size() == c.v.size() * (size_t)(c.cw / 8);
 }
 
+// width switch hoisted out of the loops: large canvases (2^18 pixels and more) go through these per operation
+// (bulk reads/writes of the harness itself inside [0, get_data_size()): not instrumented - the sanitizers are there
+// to watch phosg's accesses, and these loops run over tens of megabytes per operation on the large canvases)
+#define C07_NOSAN __attribute__((no_sanitize("address", "undefined")))
+template <typename T>
+C07_NOSAN static inline bool raw_equal_t(const void* p, const uint64_t* v, size_t n) {
+  const T* q = (const T*)p;
+  for (size_t i = 0; i < n; i++) if ((uint64_t)q[i] != v[i]) return false;
+  return true;
+}
+template <typename T>
+C07_NOSAN static inline void raw_load_t(const void* p, uint64_t* v, size_t n) {
+  const T* q = (const T*)p;
+  for (size_t i = 0; i < n; i++) v[i] = (uint64_t)q[i];
+}
+
 static bool bytes_match(const Image& im, const Canvas& c) {
   const void* p = im.get_data();
-  for (size_t i = 0; i < c.v.size(); i++) if (raw_get(p, i, c.cw) != c.v[i]) return false;
-  return true;
+  switch (c.cw) {
+    case 8: return raw_equal_t<uint8_t>(p, c.v.data(), c.v.size());
+    case 16: return raw_equal_t<uint16_t>(p, c.v.data(), c.v.size());
+    case 32: return raw_equal_t<uint32_t>(p, c.v.data(), c.v.size());
+    default: return raw_equal_t<uint64_t>(p, c.v.data(), c.v.size());
+  }
 }
 
 // reads the real buffer; the channel maximum is not observable through the API, so it is taken from `maxv_from`
 // (the model of the same canvas) when the width is still the same
 static void snapshot(const Image& im, Canvas& c, const Canvas* maxv_from = nullptr) {
   uint64_t mv = (maxv_from && maxv_from->cw == im.get_channel_width()) ? maxv_from->maxv : 0;
-  c.init((int64_t)im.get_width(), (int64_t)im.get_height(), im.get_has_alpha(), im.get_channel_width(), mv);
+  // (same as Canvas::init, without zero-filling values that are overwritten right away)
+  c.w = (int64_t)im.get_width(); c.h = (int64_t)im.get_height(); c.alpha = im.get_has_alpha(); c.cw = im.get_channel_width();
+  c.nch = c.alpha ? 4 : 3; c.mask = mask_of(c.cw); c.maxv = mv ? mv : c.mask;
+  c.v.resize((size_t)(c.w * c.h * c.nch));
+  c.fl.assign((size_t)(c.w * c.h), EXACT);
+  c.tainted = false;
   const void* p = im.get_data();
-  for (size_t i = 0; i < c.v.size(); i++) c.v[i] = raw_get(p, i, c.cw);
+  switch (c.cw) {
+    case 8: raw_load_t<uint8_t>(p, c.v.data(), c.v.size()); break;
+    case 16: raw_load_t<uint16_t>(p, c.v.data(), c.v.size()); break;
+    case 32: raw_load_t<uint32_t>(p, c.v.data(), c.v.size()); break;
+    default: raw_load_t<uint64_t>(p, c.v.data(), c.v.size()); break;
+  }
 }
 
 static string px_str(const uint64_t* p, int nch) {
@@ -320,7 +361,39 @@ static void standard_palette(vf::Rng& r, uint64_t pal[4][3]) {
   for (int k = 0; k < 3; k++) pal[3][k] = r.next();
 }
 
+// one PRNG draw per pixel: content for large canvases (same ingredients as gen_pixel: palette colours, random
+// channels, alpha 0 / 0xFF / maximum / 0x80 / 1 / max-1 / random)
+static void fill_content_fast(Canvas& c, vf::Rng& r, const uint64_t pal[4][3]) {
+  for (int64_t i = 0; i < c.w * c.h; i++) {
+    uint64_t z = r.next(), o[4];
+    if (z & 1) {
+      const uint64_t* p = pal[(z >> 1) & 3];
+      o[0] = p[0] & c.mask; o[1] = p[1] & c.mask; o[2] = p[2] & c.mask;
+    } else {
+      o[0] = (z >> 3) & c.mask;
+      o[1] = ((z * 0x9E3779B97F4A7C15ULL) >> 5) & c.mask;
+      o[2] = (((z << 29) | (z >> 35)) * 0xBF58476D1CE4E5B9ULL) & c.mask;
+    }
+    switch ((z >> 61) & 7) {
+      case 0: case 1: o[3] = 0; break;
+      case 2: case 3: o[3] = 0xFF; break;
+      case 4: o[3] = c.maxv; break;
+      case 5: o[3] = 0x80; break;
+      case 6: o[3] = (z & 2) ? 1 : c.maxv - 1; break;
+      default: o[3] = (z * 0x94D049BB133111EBULL) >> 7; break;
+    }
+    o[3] &= c.mask;
+    if (c.odd_max() && ((z >> 40) % 12))
+      for (int k = 0; k < 4; k++) if (o[k] > c.maxv) o[k] %= (c.maxv + 1);
+    uint64_t* p = &c.v[(size_t)(i * c.nch)];
+    p[0] = o[0]; p[1] = o[1]; p[2] = o[2];
+    if (c.alpha) p[3] = o[3];
+  }
+  std::fill(c.fl.begin(), c.fl.end(), (uint8_t)EXACT);
+}
+
 static void fill_content(Canvas& c, vf::Rng& r, const uint64_t pal[4][3]) {
+  if (c.w * c.h > 20000) { fill_content_fast(c, r, pal); return; }
   for (int64_t y = 0; y < c.h; y++)
     for (int64_t x = 0; x < c.w; x++) {
       uint64_t p[4];
@@ -340,7 +413,9 @@ struct Mismatch {
 
 // before: canvas before the op; model: expectation (flags); real: snapshot of the real image
 static bool compare(const Canvas& before, const Canvas& model, const Canvas& real, Mismatch& mm) {
-  for (int64_t y = 0; y < model.h; y++)
+  for (int64_t y = 0; y < model.h; y++) {
+    // a row that equals the model's row passes whatever its flags are (fast path for long rows)
+    if (model.w && !memcmp(&real.v[(size_t)(y * model.w) * model.nch], &model.v[(size_t)(y * model.w) * model.nch], sizeof(uint64_t) * (size_t)(model.w * model.nch))) continue;
     for (int64_t x = 0; x < model.w; x++) {
       size_t pi = (size_t)(y * model.w + x), vi = pi * model.nch;
       uint8_t f = model.fl[pi];
@@ -357,6 +432,7 @@ static bool compare(const Canvas& before, const Canvas& model, const Canvas& rea
           px_str(&model.v[vi], model.nch).c_str(), px_str(&real.v[vi], model.nch).c_str());
       return false;
     }
+  }
   return true;
 }
 
@@ -370,7 +446,9 @@ static void resync(Canvas& model, const Canvas& real) {
   model.tainted = false;
 }
 
-static string wtag(const Canvas& c) { return fmt("w%d", c.cw); }
+// witness class: channel width; canvases with a side of 1024 pixels or more are a class of their own ("long"), so a
+// defect that needs a long run / far offset is recognisable from its key
+static string wtag(const Canvas& c) { return fmt((c.w >= 1024 || c.h >= 1024) ? "w%d:long" : "w%d", c.cw); }
 
 // true when this key already has its 5 witnesses: callers then only count it
 static inline bool saturated(const string& key) {
@@ -404,8 +482,7 @@ static void check_invariance(const Op& o, const Canvas& before, const Canvas& re
   if (o.kind == K_MASK_DST) for (int k = 0; k < 3; k++) pal[3][k] = o.c[k];
   fill_content(big, r, pal);
   for (int64_t y = 0; y < before.h; y++)
-    for (int64_t x = 0; x < before.w; x++)
-      memcpy(&big.v[(size_t)(((y + P) * big.w + (x + P)) * big.nch)], &before.v[(size_t)((y * before.w + x) * before.nch)], sizeof(uint64_t) * before.nch);
+    if (before.w) memcpy(&big.v[(size_t)(((y + P) * big.w + P) * big.nch)], &before.v[(size_t)(y * before.w * before.nch)], sizeof(uint64_t) * (size_t)(before.w * before.nch));
   Image bimg = make_image(big);
   Op o2 = o;
   o2.x += P;
@@ -421,6 +498,15 @@ static void check_invariance(const Op& o, const Canvas& before, const Canvas& re
     return;
   }
   const void* p = bimg.get_data();
+  if (before.w * before.h > 20000 && format_matches(bimg, big)) {
+    // large canvases: rows that agree are skipped wholesale, the per-channel walk below only names the first difference
+    static Canvas g_big;
+    snapshot(bimg, g_big);
+    bool all = true;
+    for (int64_t y = 0; y < before.h && all; y++)
+      if (memcmp(&g_big.v[(size_t)(((y + P) * big.w + P) * big.nch)], &real_small.v[(size_t)(y * before.w * before.nch)], sizeof(uint64_t) * (size_t)(before.w * before.nch))) all = false;
+    if (all) return;
+  }
   for (int64_t y = 0; y < before.h; y++)
     for (int64_t x = 0; x < before.w; x++)
       for (int k = 0; k < before.nch; k++) {
@@ -580,41 +666,9 @@ static bool check_op(const Op& o, Env& e, vf::Rng& r, int invariance_P) {
 // ------------------------------------------------------------------------------------------------
 // oracle 3: line laws
 
-static void check_line(const Op& o, Canvas& dm, Image& img, uint64_t content_seed) {
-  g_before = dm;
-  const Canvas& before = g_before;
-  string where;
-  auto describe = [&]() {
-    if (where.empty()) where = op_str(o) + " dst=" + canvas_str(before) + fmt(" content_seed=%" PRIu64 " seed=%" PRIu64 " shard=%u/%u", content_seed, C->seed, C->shard, C->nshards);
-    return where;
-  };
-  C->crumb_n("draw_line", (uint64_t)o.x, (uint64_t)o.y, (uint64_t)o.x2, (uint64_t)o.y2, (uint64_t)before.w, (uint64_t)before.h);
-  C->evaluations++;
-  C->count("draw_line");
-  string what;
-  string ex = run_guarded(o, img, img, nullptr, nullptr, &what);
+// the line laws proper: `changed` = every pixel whose value differs from before the call (fmtc: size/format of the canvas)
+static void line_laws(const Op& o, const Canvas& before, const vector<pair<int64_t, int64_t>>& changed, bool colour_present, const std::function<string()>& describe) {
   string tag = ":" + wtag(before);
-  if (!ex.empty()) C->violation("draw_line:threw-" + ex + tag, "draw_line threw " + ex + ": " + what, describe());
-  if (!format_matches(img, before)) {
-    C->violation("draw_line:format-changed", "format changed", describe());
-    { Canvas keep_ = dm; snapshot(img, dm, &keep_); }
-    return;
-  }
-  snapshot(img, g_real);
-  // was the colour already present? (then "changed" under-approximates "marked")
-  uint64_t col[4] = {o.c[0] & before.mask, o.c[1] & before.mask, o.c[2] & before.mask, o.c[3] & before.mask};
-  bool colour_present = false;
-  vector<pair<int64_t, int64_t>> changed;
-  for (int64_t y = 0; y < before.h; y++)
-    for (int64_t x = 0; x < before.w; x++) {
-      size_t vi = (size_t)((y * before.w + x) * before.nch);
-      if (!memcmp(&before.v[vi], col, sizeof(uint64_t) * before.nch)) colour_present = true;
-      if (memcmp(&before.v[vi], &g_real.v[vi], sizeof(uint64_t) * before.nch)) {
-        changed.emplace_back(x, y);
-        if (memcmp(&g_real.v[vi], col, sizeof(uint64_t) * before.nch))
-          C->violation("draw_line:wrong-value" + tag, "a changed pixel does not hold the line colour", fmt("pixel (%" PRId64 ",%" PRId64 ") got=%s ", x, y, px_str(&g_real.v[vi], before.nch).c_str()) + describe());
-      }
-    }
   int64_t dx = o.x2 - o.x, dy = o.y2 - o.y;
   int64_t adx = dx < 0 ? -dx : dx, ady = dy < 0 ? -dy : dy;
   bool steep = ady > adx;
@@ -639,10 +693,14 @@ static void check_line(const Op& o, Canvas& dm, Image& img, uint64_t content_see
   }
   bool in_canvas = before.inside(o.x, o.y) && before.inside(o.x2, o.y2);
   if (in_canvas && !colour_present) {
-    set<pair<int64_t, int64_t>> cs(changed.begin(), changed.end());
+    bool has0 = false, has1 = false;
+    for (auto& p : changed) {
+      if (p.first == o.x && p.second == o.y) has0 = true;
+      if (p.first == o.x2 && p.second == o.y2) has1 = true;
+    }
     if ((int64_t)changed.size() != major + 1)
       C->violation("draw_line:pixel-count" + tag, fmt("in-canvas line marks %zu pixels, expected max(|dx|,|dy|)+1 = %" PRId64, changed.size(), major + 1), describe());
-    else if (!cs.count({o.x, o.y}) || !cs.count({o.x2, o.y2}))
+    else if (!has0 || !has1)
       C->violation("draw_line:endpoint-missing" + tag, "an endpoint of an in-canvas line is not marked", describe());
     else {
       // one pixel per major-axis step, consecutive pixels 8-adjacent
@@ -665,7 +723,128 @@ static void check_line(const Op& o, Canvas& dm, Image& img, uint64_t content_see
     C->cls(string("draw_line:") + (one_in ? "one-end-outside" : "both-ends-outside") + (changed.empty() ? ":nothing" : ":drawn"));
   }
   C->cls("draw_line:fmt:" + fmt("%d", before.cw));
-  adopt(dm, g_real);
+}
+
+static void check_line(const Op& o, Canvas& dm, Image& img, uint64_t content_seed) {
+  const Canvas& before = dm;  // dm is only replaced at the very end
+  string where;
+  auto describe = [&]() {
+    if (where.empty()) where = op_str(o) + " dst=" + canvas_str(before) + fmt(" content_seed=%" PRIu64 " seed=%" PRIu64 " shard=%u/%u", content_seed, C->seed, C->shard, C->nshards);
+    return where;
+  };
+  C->crumb_n("draw_line", (uint64_t)o.x, (uint64_t)o.y, (uint64_t)o.x2, (uint64_t)o.y2, (uint64_t)before.w, (uint64_t)before.h);
+  C->evaluations++;
+  C->count("draw_line");
+  string what;
+  string ex = run_guarded(o, img, img, nullptr, nullptr, &what);
+  string tag = ":" + wtag(before);
+  if (!ex.empty()) C->violation("draw_line:threw-" + ex + tag, "draw_line threw " + ex + ": " + what, describe());
+  if (!format_matches(img, before)) {
+    C->violation("draw_line:format-changed", "format changed", describe());
+    { Canvas keep_ = dm; snapshot(img, dm, &keep_); }
+    return;
+  }
+  snapshot(img, g_real);
+  // was the colour already present? (then "changed" under-approximates "marked")
+  uint64_t col[4] = {o.c[0] & before.mask, o.c[1] & before.mask, o.c[2] & before.mask, o.c[3] & before.mask};
+  bool colour_present = false;
+  vector<pair<int64_t, int64_t>> changed;
+  const int nch_ = before.nch;
+  auto px_eq = [nch_](const uint64_t* a, const uint64_t* b) {  // (memcmp is intercepted by ASan: too slow per pixel on 2^20-pixel canvases)
+    for (int k = 0; k < nch_; k++) if (a[k] != b[k]) return false;
+    return true;
+  };
+  for (int64_t y = 0; y < before.h; y++)
+    for (int64_t x = 0; x < before.w; x++) {
+      size_t vi = (size_t)((y * before.w + x) * before.nch);
+      if (px_eq(&before.v[vi], col)) colour_present = true;
+      if (!px_eq(&before.v[vi], &g_real.v[vi])) {
+        changed.emplace_back(x, y);
+        if (memcmp(&g_real.v[vi], col, sizeof(uint64_t) * before.nch))
+          C->violation("draw_line:wrong-value" + tag, "a changed pixel does not hold the line colour", fmt("pixel (%" PRId64 ",%" PRId64 ") got=%s ", x, y, px_str(&g_real.v[vi], before.nch).c_str()) + describe());
+      }
+    }
+  line_laws(o, before, changed, colour_present, describe);
+  // continue from the real state (adopt() without the copy: g_real is not needed any more)
+  dm.v.swap(g_real.v);
+  std::fill(dm.fl.begin(), dm.fl.end(), (uint8_t)EXACT);
+  dm.tainted = false;
+}
+
+// The same laws for a canvas that is known to be all-zero before the call (large canvases): "changed" = every pixel
+// with a non-zero byte, found by one scan of the raw buffer; afterwards exactly those pixels are zeroed again, so
+// the precondition holds for the next line.  `shape` carries size/format only (no shadow buffer needed).
+C07_NOSAN static void nonzero_words(const uint64_t* q, size_t n, vector<size_t>& out) {
+  size_t i = 0;
+  for (; i + 4 <= n; i += 4) {
+    if ((q[i] | q[i + 1] | q[i + 2] | q[i + 3]) == 0) continue;
+    for (size_t k = i; k < i + 4; k++) if (q[k]) out.push_back(k);
+  }
+  for (; i < n; i++) if (q[i]) out.push_back(i);
+}
+static void check_line_black(const Op& o, const Canvas& shape, Image& img) {
+  string where;
+  auto describe = [&]() {
+    if (where.empty()) where = op_str(o) + " dst=" + canvas_str(shape) + fmt(" (black canvas) seed=%" PRIu64 " shard=%u/%u", C->seed, C->shard, C->nshards);
+    return where;
+  };
+  C->crumb_n("draw_line", (uint64_t)o.x, (uint64_t)o.y, (uint64_t)o.x2, (uint64_t)o.y2, (uint64_t)shape.w, (uint64_t)shape.h);
+  C->evaluations++;
+  C->count("draw_line");
+  string what;
+  string ex = run_guarded(o, img, img, nullptr, nullptr, &what);
+  string tag = ":" + wtag(shape);
+  if (!ex.empty()) C->violation("draw_line:threw-" + ex + tag, "draw_line threw " + ex + ": " + what, describe());
+  if ((int64_t)img.get_width() != shape.w || (int64_t)img.get_height() != shape.h || img.get_has_alpha() != shape.alpha || img.get_channel_width() != shape.cw) {
+    C->violation("draw_line:format-changed", "format changed", describe());
+    return;
+  }
+  uint8_t* p = (uint8_t*)img.get_data();
+  size_t nbytes = img.get_data_size(), bpp = (size_t)(shape.nch * shape.cw / 8);
+  vector<pair<int64_t, int64_t>> changed;
+  size_t last_px = (size_t)-1;
+  auto hit = [&](size_t byte) {
+    size_t px = byte / bpp;
+    if (px == last_px) return;
+    last_px = px;
+    changed.emplace_back((int64_t)(px % (size_t)shape.w), (int64_t)(px / (size_t)shape.w));
+  };
+  {
+    static vector<size_t> nz;  // offsets of the non-zero 8-byte words
+    nz.clear();
+    size_t nwords = nbytes / 8;
+    nonzero_words((const uint64_t*)p, nwords, nz);  // (malloc'ed block: 8-byte aligned)
+    const size_t npx = (size_t)(shape.w * shape.h);
+    for (size_t wi : nz) {
+      // the (at most three) pixels this word overlaps; each is listed once if any of its bytes is non-zero
+      size_t first = (wi * 8) / bpp, last = (wi * 8 + 7) / bpp;
+      for (size_t px = first; px <= last && px < npx; px++) {
+        if (px == last_px) continue;
+        bool any = false;
+        for (size_t b = 0; b < bpp; b++) if (p[px * bpp + b]) { any = true; break; }
+        if (any) hit(px * bpp);
+      }
+    }
+    for (size_t i = nwords * 8; i < nbytes; i++) if (p[i]) hit(i);
+  }
+  uint64_t col[4] = {o.c[0] & shape.mask, o.c[1] & shape.mask, o.c[2] & shape.mask, o.c[3] & shape.mask};
+  if (o.u32) for (int k = 0; k < 4; k++) col[k] = o.c[k] & 0xFF & shape.mask;
+  bool reported = false;
+  for (auto& c : changed) {
+    size_t px = (size_t)(c.second * shape.w + c.first);
+    uint64_t got[4] = {0, 0, 0, 0};
+    bool same = true;
+    for (int k = 0; k < shape.nch; k++) { got[k] = raw_get(p, px * shape.nch + k, shape.cw); if (got[k] != col[k]) same = false; }
+    if (!same && !reported) {
+      reported = true;
+      C->violation("draw_line:wrong-value" + tag, "a changed pixel does not hold the line colour", fmt("pixel (%" PRId64 ",%" PRId64 ") got=%s ", c.first, c.second, px_str(got, shape.nch).c_str()) + describe());
+    }
+  }
+  line_laws(o, shape, changed, false, describe);
+  for (auto& c : changed) {  // (no memset: it is intercepted, far too slow per pixel)
+    uint8_t* q = p + (size_t)(c.second * shape.w + c.first) * bpp;
+    for (size_t b = 0; b < bpp; b++) q[b] = 0;
+  }
 }
 
 // ------------------------------------------------------------------------------------------------
@@ -838,8 +1017,8 @@ static void pixel_case(Canvas& dm, Image& img, int64_t x, int64_t y, vf::Rng& r)
     if (!in) {
       if (threw != "out_of_range")
         C->violation(string(an[acc]) + ":outside-no-out_of_range" + tag, "access outside the canvas did not throw std::out_of_range (" + (threw.empty() ? string("no exception") : threw) + ")", where);
-      snapshot(img, g_real);
-      if (!format_matches(img, dm) || g_real.v != dm.v) {
+      if (!format_matches(img, dm) || !bytes_match(img, dm)) {
+        snapshot(img, g_real);
         C->violation(string(an[acc]) + ":outside-modified-buffer" + tag, "rejected access modified the pixel buffer", where);
         adopt(dm, g_real);
       }
@@ -855,8 +1034,8 @@ static void pixel_case(Canvas& dm, Image& img, int64_t x, int64_t y, vf::Rng& r)
       uint64_t cc[4] = {c[0], c[1], c[2], c[3]};
       if (acc == 3) for (int k = 0; k < 4; k++) cc[k] &= 0xFF;
       dm.put(x, y, cc);
-      snapshot(img, g_real);
-      if (g_real.v != dm.v) {
+      if (!bytes_match(img, dm)) {
+        snapshot(img, g_real);
         C->violation(string(an[acc]) + ":wrong-buffer" + tag, "after write_pixel the raw buffer is not 'exactly that pixel set to the (truncated) value'", where + " value=" + col_str(cc));
         adopt(dm, g_real);
       }
@@ -1339,9 +1518,7 @@ static void identity_suite(vf::Rng& r) {
 }
 
 static bool memcmp_needed_resync(const Canvas& dm, const Image& img) {
-  const void* p = img.get_data();
-  for (size_t i = 0; i < dm.v.size(); i++) if (raw_get(p, i, dm.cw) != dm.v[i]) return true;
-  return false;
+  return !bytes_match(img, dm);
 }
 
 // ------------------------------------------------------------------------------------------------
@@ -1744,6 +1921,416 @@ static void sequence_suite(vf::Rng& r) {
   }
 }
 
+// ------------------------------------------------------------------------------------------------
+// suite: long-thin and large canvases.  Everything above works on canvases of at most a few hundred pixels per side
+// (coordinates may be huge, but every in-canvas run is short), so anything that accumulates error along a run,
+// overflows a 16-bit / fixed-point / int intermediate, or depends on a row stride or pixel index beyond 2^15, 2^16,
+// 2^20, 2^24 is invisible there.  Ladder: W x H and H x W with W in {2^k-1, 2^k, 2^k+1, 3*2^(k-1)}, k = 12..18,
+// H = 1..4, plus a few moderately large "square" canvases.  Same oracles as everywhere else (line laws, per-pixel
+// model, padded-canvas invariance, out_of_range on direct access, identities), requests placed at far offsets.
+
+struct Geom { int64_t w, h; int k; int shape; };  // shape 0: wide (long x), 1: tall (long y), 2: square-ish
+
+static int log2_floor(int64_t v) { int j = 0; while ((2LL << j) <= v) j++; return j; }
+
+// a coordinate for an axis of `size` pixels, biased to the far end, to the edge, and to powers of two inside the canvas
+static int64_t far_coord(vf::Rng& r, int64_t size) {
+  if (size < 64) return r.range(-3, size + 3);
+  switch (r.below(11)) {
+    case 0: return size - 1 - r.range(0, 8);   // last pixels
+    case 1: return size - r.range(0, 45);      // a rectangle / glyph run starting here crosses the far edge
+    case 2: return size + r.range(0, 3);       // just beyond
+    case 3: case 4: case 5: {                  // at / just before a power of two (or 3*2^j) that lies inside the canvas
+      int jmax = max(8, log2_floor(size + 2)), j = r.chance(2, 3) ? jmax - (int)r.below(3) : (int)r.range(8, jmax);
+      if (j < 8) j = 8;
+      int64_t b = 1LL << j;
+      if (r.chance(1, 4) && 3 * b / 2 < size) b = 3 * b / 2;
+      return b + (r.chance(1, 2) ? r.range(-3, 3) : -r.range(0, 45));
+    }
+    case 6: return r.range(-3, 3);
+    case 7: return -r.range(1, 45);
+    default: return r.range(0, size - 1);
+  }
+}
+
+static int64_t far_extent(vf::Rng& r, int64_t size, int64_t at) {
+  switch (r.below(10)) {
+    case 0: return -1;
+    case 1: case 2: case 3: return r.range(0, 45);
+    case 4: return size - at + r.range(-1, 1);  // ends at the far edge (+-1)
+    case 5: return size + r.range(0, 3);
+    case 6: return r.range(0, size);
+    case 7: { static const int64_t m[] = {32767, 32768, 65535, 65536, 65537, 2147483647LL, 2147483648LL}; return m[r.below(7)]; }
+    default: return size < 64 ? r.range(0, size + 3) : r.range(0, 300);
+  }
+}
+
+static void large_geometry(Op& o, vf::Rng& r, const Canvas& d, const Canvas& s) {
+  static const int64_t dashes[] = {0, 1, 2, 7, 255, 256, 257, 4096, 32767, 32768, 65536, -3, -256};
+  switch (o.kind) {
+    case K_FILL:
+      o.x = far_coord(r, d.w); o.y = far_coord(r, d.h);
+      o.w = far_extent(r, d.w, o.x); o.h = far_extent(r, d.h, o.y);
+      if (o.w < 0 && r.chance(1, 2)) o.w = d.w;
+      if (o.h < 0 && r.chance(1, 2)) o.h = d.h;
+      if (r.chance(1, 3)) {  // long run along the long axis, from (near) the start
+        bool ydir = d.h > d.w;
+        int64_t dl = ydir ? d.h : d.w;
+        (ydir ? o.y : o.x) = r.chance(1, 2) ? r.range(-3, 3) : r.range(0, dl / 8);
+        (ydir ? o.h : o.w) = r.chance(1, 3) ? dl + r.range(0, 3) : r.chance(1, 2) ? r.range(3 * dl / 4, dl) : 2147483648LL - r.range(0, 1);
+      }
+      break;
+    case K_TEXT:
+      o.x = r.chance(1, 2) ? far_coord(r, d.w) : d.w - r.range(0, 40);
+      o.y = r.chance(1, 2) ? far_coord(r, d.h) : d.h - r.range(0, 12);
+      break;
+    case K_HLINE: case K_VLINE: {
+      int64_t len = o.kind == K_HLINE ? d.w : d.h, other = o.kind == K_HLINE ? d.h : d.w;
+      o.y = r.chance(1, 3) ? far_coord(r, other) : other ? r.range(0, other - 1) : 0;
+      if (r.chance(1, 2) && len > 0) {
+        o.x = r.range(0, len - 1); o.x2 = r.range(0, len - 1);
+        if (r.chance(1, 2)) { o.x = max<int64_t>(0, min(len - 1, far_coord(r, len))); }
+        if (r.chance(1, 2)) { o.x2 = len - 1 - r.range(0, min<int64_t>(len - 1, 3)); }
+        if (o.x > o.x2 && r.chance(7, 8)) swap(o.x, o.x2);
+      } else {
+        o.x = far_coord(r, len); o.x2 = r.chance(1, 2) ? far_coord(r, len) : o.x + far_extent(r, len, o.x);
+      }
+      o.dash = dashes[r.below(sizeof(dashes) / sizeof(dashes[0]))];
+      break;
+    }
+    default:
+      if (o.kind <= K_CUSTOM64) {
+        o.x = far_coord(r, d.w); o.y = far_coord(r, d.h);
+        o.sx = far_coord(r, s.w); o.sy = far_coord(r, s.h);
+        if (r.chance(1, 3)) o.sx = r.range(-2, 2);
+        if (r.chance(1, 3)) o.sy = r.range(-2, 2);
+        o.w = far_extent(r, max(d.w, s.w), r.chance(1, 2) ? o.x : o.sx);
+        o.h = far_extent(r, max(d.h, s.h), r.chance(1, 2) ? o.y : o.sy);
+        if (r.chance(1, 2)) {
+          // long run: the copied area spans (nearly) the whole common length of both canvases, so the inner loops make
+          // tens of thousands of steps and the far ends of source AND destination are reached within one call
+          static const int64_t huge[] = {65536, 65537, 131072, 2147483647LL, 2147483648LL};
+          for (int axis = 0; axis < 2; axis++) {
+            int64_t dl = axis ? d.h : d.w, sl = axis ? s.h : s.w;
+            int64_t& p = axis ? o.y : o.x; int64_t& sp = axis ? o.sy : o.sx; int64_t& e = axis ? o.h : o.w;
+            if (max(dl, sl) < 64) { if (r.chance(1, 2)) { p = r.range(-1, 1); sp = r.range(-1, 1); e = r.chance(1, 2) ? -1 : max(dl, sl) + r.range(0, 2); } continue; }
+            p = r.chance(1, 2) ? r.range(-3, 3) : r.range(0, dl / 8);
+            sp = r.chance(1, 2) ? r.range(-3, 3) : r.range(0, sl / 8);
+            switch (r.below(6)) {
+              case 0: e = -1; break;
+              case 1: e = max(dl, sl) + r.range(0, 3); break;
+              case 2: e = min(dl - p, sl - sp) + r.range(-1, 1); break;
+              case 3: e = huge[r.below(5)]; break;
+              default: e = r.range(3 * min(dl, sl) / 4, max(dl, sl)); break;
+            }
+          }
+        }
+      }
+      break;
+  }
+}
+
+static uint64_t n_large_ops = 0, n_large_lines = 0, n_large_pixels = 0;
+
+static void large_rect_ops(const Geom& g, Canvas& dm, Image& img, Canvas sms[2], Image simgs[2], uint64_t cseed, int nops, vf::Rng& r, const uint64_t pal[4][3]) {
+  Canvas mm;
+  for (int step = 0; step < nops; step++) {
+    int kind;
+    unsigned k = (unsigned)r.below(100);
+    if (k < 48) kind = (int)(k % 8);
+    else if (k < 60) kind = K_FILL;
+    else if (k < 68) kind = K_TEXT;
+    else if (k < 76) kind = K_HLINE;
+    else if (k < 84) kind = K_VLINE;
+    else if (k < 88) kind = K_REV_H;
+    else if (k < 92) kind = K_REV_V;
+    else if (k < 95) kind = K_INVERT;
+    else if (k < 97) kind = K_RESIZE;
+    else {
+      probe_reads(dm, img, r, 4, cseed, "dst");
+      continue;
+    }
+    int which = (int)r.below(9);  // 0..3: small source, 4..7: long source, 8: self
+    bool self = which == 8 && kind != K_RESIZE && kind <= K_CUSTOM64;
+    const Canvas& sc = self ? dm : sms[(which / 4) % 2];
+    Op o = gen_op(r, kind, dm, sc, pal, false);
+    large_geometry(o, r, dm, sc);
+    Env e{&dm, &img, self ? nullptr : &sc, self ? nullptr : &simgs[(which / 4) % 2]};
+    e.content_seed = cseed;
+    Image mimg;
+    if (kind == K_MASK_IMG) {
+      // the mask must cover the source and the requested w x h (documented precondition); keep it affordable: along an
+      // axis where the source is thin the request is at most 8, along a long axis the mask is at most source + 80
+      if (sc.w < 64 && o.w > 8) o.w = 8;
+      if (sc.h < 64 && o.h > 8) o.h = 8;
+      int64_t w = o.w < 0 ? sc.w : o.w, h = o.h < 0 ? sc.h : o.h;
+      int64_t mw = max(sc.w, min<int64_t>(w, sc.w < 64 ? 8 : sc.w + 80)), mh = max(sc.h, min<int64_t>(h, sc.h < 64 ? 8 : sc.h + 80));
+      if (r.chance(1, 12)) { mw = r.range(0, mw); mh = r.range(0, mh); }  // sometimes too small: runtime_error expected
+      // (a mask that covers w x h but not the source area it is indexed with is outside the documented precondition too,
+      // but is not rejected up front: not generated, as in the sequence stage)
+      if (!(mw < w || mh < h) && (mw < sc.w || mh < sc.h)) { mw = max(mw, sc.w); mh = max(mh, sc.h); }
+      mm.init(mw, mh, r.chance(1, 4), 8);
+      fill_content(mm, r, pal);
+      mimg = make_image(mm);
+      e.mm = &mm;
+      e.mimg = &mimg;
+    }
+    int P = (!self && r.chance(1, 4)) ? (int)r.range(1, 2) : 0;  // (a thin canvas padded by P grows by 2P/H)
+    const int64_t before_w = dm.w, before_h = dm.h, src_w = sc.w, src_h = sc.h;
+    check_op(o, e, r, P);
+    n_large_ops++;
+    C->cls(string("large:op:") + kind_names[kind]);
+    if (kind <= K_FILL) {
+      // (classification only) how many steps does the inner loop along the long axis make?
+      bool ydir = g.shape == 1;
+      int64_t dl = ydir ? before_h : before_w, sl = kind == K_FILL ? INT64_MAX / 4 : ydir ? src_h : src_w;
+      int64_t p = ydir ? o.y : o.x, sp = kind == K_FILL ? 0 : ydir ? o.sy : o.sx, e = ydir ? o.h : o.w;
+      if (e < 0 && kind != K_FILL) e = sl;
+      int64_t lo = max<int64_t>(0, max(-p, -sp)), hi = min(e, min(dl - p, sl - sp));
+      int64_t run = hi - lo;
+      if (run >= 32768) C->cls(string("large:run>=") + (run >= 131072 ? "2^17" : run >= 65536 ? "2^16" : "2^15") + ":" + (kind == K_FILL ? "fill_rect" : "blit-family"));
+    }
+    if (kind <= K_FILL || kind == K_TEXT) {
+      // where does the request land: beyond 2^15 / 2^16 / 2^17 along the long axis?
+      int64_t at = g.shape == 1 ? o.y : o.x;
+      if (at >= 32768 && at < (g.shape == 1 ? dm.h : dm.w))
+        C->cls(string("large:offset>=") + (at >= 131072 ? "2^17" : at >= 65536 ? "2^16" : "2^15") + ":" + (kind <= K_CUSTOM64 ? "blit-family" : kind_names[kind]));
+    }
+  }
+}
+
+static void large_pixels(const Geom& g, Canvas& dm, Image& img, vf::Rng& r, int n) {
+  int64_t W = dm.w, H = dm.h;
+  vector<pair<int64_t, int64_t>> pts;
+  int64_t xi = W - 1 - (int64_t)r.below(3), yi = H - 1 - (int64_t)r.below(min<int64_t>(H, 3));
+  pts.push_back({xi, yi});                      // far corner
+  pts.push_back({W, 0});                        // linear index lands inside the buffer (next row) although x is out of range
+  pts.push_back({-1, H > 1 ? 1 : 0});
+  pts.push_back({xi + W, yi - 1});
+  pts.push_back({xi - W, yi + 1});
+  pts.push_back({xi + 65536, yi});              // would alias into the canvas if a coordinate were cut to 16 / 32 bits
+  pts.push_back({xi, yi + 65536});
+  pts.push_back({xi + 4294967296LL, yi});
+  pts.push_back({xi, yi + 4294967296LL});
+  pts.push_back({xi - 65536, yi});
+  pts.push_back({far_coord(r, W), far_coord(r, H)});
+  pts.push_back({far_coord(r, W), H ? r.range(0, H - 1) : 0});
+  pts.push_back({W ? r.range(0, W - 1) : 0, far_coord(r, H)});
+  for (int j = 15; j <= 24; j++) {
+    // pixel index / byte offset around 2^j
+    int64_t idx = (1LL << j) / (r.chance(1, 2) ? 1 : dm.nch * (dm.cw / 8)) + r.range(-1, 1);
+    if (idx >= 0 && idx < W * H) pts.push_back({idx % W, idx / W});
+  }
+  // the fixed ones first, then a seed-dependent selection of the rest
+  for (size_t i = 0; i < pts.size() && n > 0; i++) {
+    if (i >= 5 && !r.chance(1, 2)) continue;
+    pixel_case(dm, img, pts[i].first, pts[i].second, r);
+    n_large_pixels++;
+    n--;
+    bool in = dm.inside(pts[i].first, pts[i].second);
+    C->cls(string("large:pixel:") + (in ? "inside" : "outside") + (g.shape == 2 ? ":square" : g.shape ? ":tall" : ":wide"));
+  }
+}
+
+// lines on a black canvas.  (a, m) = coordinate along the long axis / along the short axis.
+static void large_lines(const Geom& g, bool alpha, int cw, int n_in, int n_out, vf::Rng& r) {
+  Canvas dm;  // size / format only: the lines are judged on the raw buffer (check_line_black)
+  dm.w = g.w; dm.h = g.h; dm.alpha = alpha; dm.cw = cw; dm.nch = alpha ? 4 : 3; dm.mask = dm.maxv = mask_of(cw);
+  Image img((size_t)g.w, (size_t)g.h, alpha, (uint8_t)cw);
+  memset(img.get_data(), 0, img.get_data_size());
+  bool tall = g.shape == 1;
+  int64_t L = tall ? g.h : g.w, S = tall ? g.w : g.h;
+  vector<int64_t> special;  // major-axis lengths around every power of two (and 3*2^j) that fits
+  for (int j = 8; j <= 20; j++) {
+    for (int64_t b : {1LL << j, 3LL << (j - 1)})
+      for (int64_t d : {-1, 0, 1}) if (b + d <= L - 1) special.push_back(b + d);
+  }
+  static uint64_t colour_ctr = 0;
+  const int64_t pair_rot = (int64_t)r.below(64);
+  auto run = [&](int64_t a0, int64_t m0, int64_t a1, int64_t m1, const char* type) {
+    Op o;
+    o.kind = K_LINE;
+    o.x = tall ? m0 : a0; o.y = tall ? a0 : m0; o.x2 = tall ? m1 : a1; o.y2 = tall ? a1 : m1;
+    colour_ctr++;
+    o.c[0] = 1 + (colour_ctr % 250); o.c[1] = 0xFF; o.c[2] = colour_ctr & 0xFF; o.c[3] = (colour_ctr & 2) ? 0xFF : 0xC0;
+    o.u32 = colour_ctr & 1;
+    check_line_black(o, dm, img);
+    n_large_lines++;
+    C->cls(string("large:line:") + type + (type[0] != 'i' ? "" : g.shape == 2 ? ":square" : tall ? ":tall" : ":wide"));
+    int64_t run_len = llabs(a1 - a0);
+    if (type[0] == 'i' && run_len >= 32768) C->cls(string("large:line:incanvas-run>=") + (run_len >= 131072 ? "2^17" : run_len >= 65536 ? "2^16" : "2^15"));
+  };
+  for (int i = 0; i < n_in; i++) {
+    int64_t a0, a1, m0 = r.range(0, S - 1), m1 = r.range(0, S - 1);
+    const char* type;
+    unsigned t = (unsigned)(i % 4);
+    if (t == 3 && S < 64) t = (unsigned)r.below(3);
+    if (t == 0 || special.empty()) {          // full length, every shallow slope the canvas allows
+      a0 = 0; a1 = L - 1;
+      if (S > 1 && S <= 4) {  // ordered pairs m0 != m1 in rotation (start chosen per canvas): dy = +-1..+-(S-1)
+        int64_t qn = (int64_t)(i / 4) + pair_rot;
+        m0 = qn % S;
+        m1 = (m0 + 1 + (qn / S) % (S - 1)) % S;
+      }
+      type = "incanvas:full-length";
+    } else if (t == 1) {                        // length around a power of two (slope just off a multiple of 2^-16 / 2^-8)
+      size_t top = special.size() < 9 ? special.size() : 9;
+      int64_t dx = r.chance(2, 3) ? special[special.size() - 1 - r.below(top)] : special[r.below(special.size())];
+      a0 = r.chance(1, 3) ? 0 : r.chance(1, 2) ? L - 1 - dx : r.range(0, L - 1 - dx);
+      a1 = a0 + dx;
+      type = "incanvas:pow2-length";
+    } else if (t == 2) {
+      a0 = r.range(0, L - 1); a1 = r.range(0, L - 1);
+      if (llabs(a1 - a0) < L / 2 && r.chance(1, 2)) { a0 = r.range(0, L / 8); a1 = L - 1 - r.range(0, L / 8); }
+      type = "incanvas:random";
+    } else {                                    // near-diagonal (square canvases)
+      int64_t n = min(L, S) - 1 - r.range(0, 3);
+      a0 = r.range(0, 3); m0 = r.range(0, 3);
+      int64_t la = min(n, L - 1 - a0), lm = la + r.range(-2, 2);
+      if (r.chance(1, 4)) lm = la - la / (int64_t)(1 << r.range(8, 10)) - r.range(0, 1);  // slope 1 - 2^-8.. (just off a multiple)
+      lm = max<int64_t>(0, min(lm, S - 1 - m0));
+      a1 = a0 + la; m1 = m0 + lm;
+      if (r.chance(1, 2)) { m0 = S - 1 - m0; m1 = S - 1 - m1; }  // descending
+      type = "incanvas:near-diagonal";
+    }
+    if (r.chance(1, 2)) { swap(a0, a1); swap(m0, m1); }
+    run(a0, m0, a1, m1, type);
+  }
+  static const int64_t beyond[] = {1, 2, 100, 32768, 65536, 65537, 1048576, 2147483647LL};
+  for (int i = 0; i < n_out; i++) {
+    int64_t a0 = r.chance(1, 2) ? r.range(0, min<int64_t>(L - 1, 3)) : r.range(0, L / 2), m0 = r.range(0, S - 1), a1, m1;
+    const char* type;
+    switch (i % 5) {
+      case 0: case 1: {  // leaves through the far end after a long in-canvas run, shallow
+        int64_t b = beyond[r.below(8)];
+        a1 = (b >= 1048576) ? b - r.range(0, 3) : L - 1 + b;
+        int64_t span = (a1 - a0) / L + 1;
+        m1 = m0 + (r.chance(1, 2) ? 1 : -1) * r.range(0, min<int64_t>(3, S) * span);
+        type = "outside:far-end";
+        break;
+      }
+      case 2:            // leaves through the long side somewhere along the canvas
+        a1 = a0 + r.range(L / 2, L);
+        m1 = r.chance(1, 2) ? S + r.range(0, 2 * S + 5) : -r.range(1, 2 * S + 5);
+        type = "outside:long-side";
+        break;
+      case 3:            // comes in from beyond the near end (the walk starts outside)
+        a1 = r.range(L / 2, L - 1); m1 = r.range(0, S - 1);
+        a0 = -beyond[r.below(8)];
+        m0 = m1 + r.range(-3, 3);
+        type = "outside:near-end";
+        break;
+      default: {         // both ends outside, ideal segment crosses the canvas
+        a0 = -r.range(1, 70000); a1 = L - 1 + r.range(1, 70000);
+        m0 = r.range(-2, S + 1); m1 = r.range(-2, S + 1);
+        type = "outside:both";
+        break;
+      }
+    }
+    if (r.chance(1, 2)) { swap(a0, a1); swap(m0, m1); }
+    run(a0, m0, a1, m1, type);
+  }
+}
+
+static void large_canvas_case(const Geom& g, int fmtsel, uint64_t cseed, int nops, int n_in, int n_out, int npix, bool with_identity) {
+  vf::Rng r(cseed);
+  int cw = WIDTHS[fmtsel % 4];
+  bool alpha = fmtsel >= 4;
+  uint64_t pal[4][3];
+  standard_palette(r, pal);
+  const char* shape = g.shape == 2 ? "square" : g.shape ? "tall" : "wide";
+  if (g.shape != 2) C->cls(fmt("large:canvas:k%d", g.k));
+  C->cls(string("large:canvas:") + shape);
+  C->cls(fmt("large:canvas:fmt:%d%s", cw, alpha ? "a" : "n"));
+  if ((uint64_t)(g.w * g.h) * (uint64_t)((alpha ? 4 : 3) * cw / 8) > (1ULL << 24)) C->cls("large:canvas:bytes>2^24");
+  if (g.w * g.h > (1 << 20)) C->cls("large:canvas:pixels>2^20");
+  C->count("large_canvases");
+
+  large_lines(g, alpha, cw, n_in, n_out, r);
+
+  Canvas dm, sms[2];
+  dm.init(g.w, g.h, alpha, cw);
+  fill_content(dm, r, pal);
+  Image img = make_image(dm);
+  bool mixed = r.chance(1, 6);
+  // a small source and a long one (same orientation as the destination; its far end is addressed by sx/sy)
+  int64_t L = max(g.w, g.h);
+  int64_t sl = r.chance(2, 3) ? L + r.range(-3, 5) : r.chance(1, 2) ? r.range(L / 2, L) : ((1LL << r.range(10, log2_floor(L))) + r.range(-1, 1));
+  if (g.shape == 2) {
+    sms[0].init(r.range(1, 40), r.range(1, 40), r.chance(1, 2), cw);
+    sms[1].init(g.w / 3 + r.range(0, 5), g.h / 3 + r.range(0, 5), r.chance(1, 2), mixed ? WIDTHS[r.below(4)] : cw);
+  } else {
+    int64_t a = r.range(1, 40), b = r.range(1, 6), t = r.range(1, 3);
+    sms[0].init(g.shape ? b : a, g.shape ? a : b, r.chance(1, 2), cw);
+    sms[1].init(g.shape ? t : sl, g.shape ? sl : t, r.chance(1, 2), mixed ? WIDTHS[r.below(4)] : cw);
+  }
+  for (auto& s : sms) fill_content(s, r, pal);
+  Image simgs[2] = {make_image(sms[0]), make_image(sms[1])};
+  if (C->shard == 0 && C->samples.size() < 4) C->sample("large canvas " + canvas_str(dm) + " with sources " + canvas_str(sms[0]) + ", " + canvas_str(sms[1]));
+
+  large_rect_ops(g, dm, img, sms, simgs, cseed, nops - nops / 3, r, pal);
+  // the format changes with the model carried across them, then more drawing on the converted canvas
+  check_format_op(1, !dm.alpha, dm, img, cseed, "large dst");
+  if (r.chance(1, 2)) {
+    int nw = WIDTHS[r.below(4)];
+    check_format_op(0, nw, dm, img, cseed, "large dst");
+    for (int j = 0; j < 2; j++) if (!mixed) check_format_op(0, nw, sms[j], simgs[j], cseed, "large src");
+  } else {
+    check_format_op(2 + (int)r.below(2), 0, dm, img, cseed, "large dst");
+  }
+  large_rect_ops(g, dm, img, sms, simgs, cseed, nops / 3, r, pal);
+  large_pixels(g, dm, img, r, npix);
+  if (with_identity) {
+    if (memcmp_needed_resync(dm, img)) { Canvas keep_ = dm; snapshot(img, dm, &keep_); }
+    identity_checks(dm, img, cseed, r);
+    C->cls(string("large:identity:") + shape);
+  }
+}
+
+static void large_suite(vf::Rng&) {
+  vector<Geom> ladder;
+  for (int k = 12; k <= 18; k++)
+    for (int v = 0; v < 4; v++)
+      for (int64_t h = 1; h <= 4; h++)
+        for (int tall = 0; tall < 2; tall++) {
+          int64_t W = v == 0 ? (1LL << k) - 1 : v == 1 ? (1LL << k) : v == 2 ? (1LL << k) + 1 : 3LL << (k - 1);
+          ladder.push_back(tall ? Geom{h, W, k, 1} : Geom{W, h, k, 0});
+        }
+  // 224 = 14 groups of 16: every shard gets one geometry of every (k, v/2) group, thickness and orientation mixed;
+  // the seed rotates which one
+  bool q = C->quick();
+  for (size_t idx = 0; idx < ladder.size(); idx++) {
+    uint64_t owner = (idx + 7 * (idx / 16) + C->seed) % 16;
+    if (owner % C->nshards != C->shard) continue;
+    const Geom& g = ladder[idx];
+    int64_t npx = g.w * g.h;
+    for (int f = 0; f < (q ? 1 : 8); f++) {
+      int fmtsel = (int)((idx * 3 + idx / 8 + C->seed + (uint64_t)f) % 8);
+      uint64_t cseed = (C->seed * 1000003ULL + idx) * 8 + (uint64_t)f;
+      // fewer requests on the biggest canvases (cost is linear in the pixel count)
+      int nops = npx > 600000 ? 8 : npx > 150000 ? 12 : 18;
+      large_canvas_case(g, fmtsel, cseed, q ? nops : 2 * nops, q ? (npx > 150000 ? 12 : 20) : 48, q ? (npx > 150000 ? 5 : 8) : 20, q ? (npx > 150000 ? 6 : 10) : 20,
+          q ? (npx <= 20000 || (idx / 16 + idx + C->seed) % 8 == 0) : (npx <= 300000 || f % 4 == 0));
+    }
+  }
+  // "square" canvases: pixel index beyond 2^20, byte offsets beyond 2^24 (64-bit channels), near-diagonal long lines
+  struct Sq { int64_t w, h; int fmtsel; bool quick; };
+  static const Sq squares[] = {
+      {1500, 1100, 0, true}, {1100, 1500, 4, true}, {1024, 700, 3, true}, {2049, 513, 1, true}, {513, 2049, 6, true}, {1450, 1500, 5, false},
+      {700, 1024, 7, false}, {2100, 2000, 4, false}, {4097, 257, 2, false}, {257, 4097, 0, false}, {1201, 1201, 1, false}};
+  for (size_t j = 0; j < sizeof(squares) / sizeof(squares[0]); j++) {
+    const Sq& s = squares[j];
+    if (q && !s.quick) continue;
+    if ((3 * j + 5 + C->seed) % C->nshards != C->shard) continue;
+    Geom g{s.w, s.h, 0, 2};
+    int fmtsel = q ? (int)((s.fmtsel + (s.fmtsel == 3 ? 0 : 4 * (C->seed & 1))) % 8) : s.fmtsel;
+    large_canvas_case(g, fmtsel, (C->seed * 1000003ULL + 5000 + j) * 8, q ? 8 : 20, q ? 24 : 80, q ? 8 : 20, q ? 8 : 20, q ? (j + C->seed) % 5 == 0 : s.w * s.h < 3000000);
+  }
+  C->count("large_rect_ops", n_large_ops);
+  C->count("large_lines", n_large_lines);
+  C->count("large_pixel_cases", n_large_pixels);
+}
+
 int main(int argc, char** argv) {
   vf::Ctx& c = vf::init(argc, argv);
   C = &c;
@@ -1759,6 +2346,7 @@ int main(int argc, char** argv) {
   if (want("ident")) identity_suite(r);
   if (want("format")) format_suite(r);
   if (want("seq")) sequence_suite(r);
+  if (want("large")) large_suite(r);
   flush_counters();
   c.sample("fill_rect: complete cross product x,y in [-3,size+3], w,h in [-1,size+3] on canvases {0,1,2,3,5,8}^2, both alpha modes, 4 colours");
   c.sample("blit family: x,sx,y,sy in [-3,size+3], w,h in [-1,max+3] on canvases {0..3}^4, 8 kinds in rotation, self blits, padded-canvas invariance");
